@@ -19,6 +19,8 @@ evaluates it on this table):
     CtxMutate        S.add / update / discard / remove / clear     CtxDefine    being bound to a tracked name / returned
                                                                                  by the `root_names` property
     CtxToSet         converted to a set again (set(S), {.. for x in S})        CtxSetOp   operand of | & - ^ / set method
+                     (the RESULT of S.union/intersection/difference/symmetric_difference/copy and of | & - ^ is itself
+                      listed as a SrcSetExpr site with the context that consumes it)
     CtxPassTracked   passed to a function of the same file whose parameter is annotated as a set
     CtxIterate       iterated: for / comprehension / list() / tuple() / join() / * / extend() / iter() / unguarded pop()
     CtxEscapeCall    passed to any other callable
@@ -71,6 +73,7 @@ NAMED_FUNCS = [
 ]
 SET_ANN = ('Set', 'MutableSet', 'FrozenSet', 'AbstractSet', 'set', 'frozenset')
 SET_METHODS_MUT = {'add', 'update', 'discard', 'remove', 'clear', 'difference_update', 'intersection_update'}
+SET_METHODS_RET = {'union', 'intersection', 'difference', 'symmetric_difference', 'copy'}
 SET_METHODS_OP = {'union', 'intersection', 'difference', 'symmetric_difference', 'copy', 'issubset', 'issuperset',
                   'isdisjoint'}
 LISTING_ATTRS = {'iterdir', 'listdir', 'scandir', 'glob', 'rglob', 'walk'}
@@ -137,9 +140,35 @@ class FileScan:
             p, ch = self.parent.get(p), p
         return False
 
+    def derived_set(self, e, names: set) -> bool:
+        """set-valued by syntax, OR built from a known set by set algebra: S.union/intersection/difference/
+        symmetric_difference/copy(...), S | T, S & T, S - T, S ^ T, a conditional between such"""
+        if self.syntactic_set(e):
+            return True
+        if isinstance(e, ast.Name):
+            return e.id in names or e.id in self.globals_set
+        if isinstance(e, ast.Attribute):
+            return e.attr in self.set_attrs
+        if isinstance(e, ast.Call) and isinstance(e.func, ast.Attribute) and e.func.attr in SET_METHODS_RET:
+            return self.derived_set(e.func.value, names)
+        if isinstance(e, ast.BinOp) and isinstance(e.op, (ast.BitOr, ast.BitAnd, ast.Sub, ast.BitXor)):
+            return self.derived_set(e.left, names) or self.derived_set(e.right, names)
+        if isinstance(e, ast.IfExp):
+            return self.derived_set(e.body, names) or self.derived_set(e.orelse, names)
+        return False
+
     def local_sets(self, fn) -> set:
-        """names bound to sets inside the function `fn` (or at module level when fn is None)"""
-        out = set()
+        """names bound to sets inside the function `fn` (or at module level when fn is None); fixpoint over
+        assignments from set algebra on names already known"""
+        out = self.local_sets_once(fn, set())
+        while True:
+            nxt = self.local_sets_once(fn, out)
+            if nxt == out:
+                return out
+            out = nxt
+
+    def local_sets_once(self, fn, known: set) -> set:
+        out = set(known)
         body = fn if fn is not None else self.tree
         if fn is not None and not isinstance(fn, ast.Lambda):
             a = fn.args
@@ -150,10 +179,10 @@ class FileScan:
             if isinstance(node, (ast.FunctionDef, ast.AsyncFunctionDef, ast.Lambda)) and node is not body:
                 continue
             if isinstance(node, ast.AnnAssign) and isinstance(node.target, ast.Name):
-                if ann_is_set(node.annotation) or (node.value is not None and self.syntactic_set(node.value)):
+                if ann_is_set(node.annotation) or (node.value is not None and self.derived_set(node.value, known)):
                     if self.enclosing_func(node) is fn:
                         out.add(node.target.id)
-            if isinstance(node, ast.Assign) and self.syntactic_set(node.value):
+            if isinstance(node, ast.Assign) and self.derived_set(node.value, known):
                 for t in node.targets:
                     if isinstance(t, ast.Name) and self.enclosing_func(node) is fn:
                         out.add(t.id)
@@ -242,6 +271,8 @@ class FileScan:
                 src = 'SrcRootNames'
             elif self.syntactic_set(node):
                 src = 'SrcSetExpr'
+            elif isinstance(node, (ast.Call, ast.BinOp, ast.IfExp)) and self.derived_set(node, locs):
+                src = 'SrcSetExpr'          # the RESULT of set algebra is a set again: S.difference(T), S | T ...
             elif self.is_listing(node):
                 src = 'SrcListing'
             elif self.is_tracked_load(node, locs):
@@ -401,6 +432,8 @@ class FileScan:
         # ---- truthiness
         if isinstance(p, (ast.If, ast.While, ast.IfExp)) and node is p.test:
             return 'CtxTruth'
+        if isinstance(p, ast.IfExp):
+            return 'CtxSetOp'            # a branch of a conditional: the conditional is listed as a site itself
         if isinstance(p, ast.BoolOp) or (isinstance(p, ast.UnaryOp) and isinstance(p.op, ast.Not)):
             return 'CtxTruth'
         if isinstance(p, ast.BinOp) and isinstance(p.op, (ast.BitOr, ast.BitAnd, ast.Sub, ast.BitXor)):
